@@ -387,6 +387,14 @@ func runC02(c *Ctx) {
 				}
 			}
 		}
+		// the same two bytes through encoding/binary
+		for _, ci := range callsNamed(fn, "(binary.littleEndian).AppendUint16") {
+			if a := ci.Common().Args; len(a) == 3 && ex(a[1]) == "arg0" && ex(a[2]) == "recv.crc" {
+				if rets := retInstrs(fn); len(rets) == 1 && rets[0].Results[0] == ci.Value() {
+					ok = true
+				}
+			}
+		}
 		r.Check(ok, "R2.3", "X25.Sum", c.Pos(fn.Pos()), "appends low byte then high byte", "X25.Sum must append the register little-endian")
 	}
 
